@@ -1082,6 +1082,17 @@ def corpus(pid):
                     "main": [["adopt", 0, 2], ["adopt", 0, 3], ["accept", 0]],
                     "helpers": [[["wait_running", 0], ["adopt", 0, 0], ["adopt", 0, 1], ["sleep", 0.6], ["shutdown", 0]]],
                     "timeout": 10, "linger": 0.3, "meta": {"family": "stop", "trigger": "shutdown", "when": "late"}})
+    if pid in ("C02", "C12"):
+        # a coroutine payload stops the runtime through a worker thread it waits for (trio.to_thread / run_in_executor)
+        for fl in ("trio", "asyncio"):
+            out.append({"runners": [{"accept_delay": 0.05}],
+                        "payloads": {"0": {"flavour": fl, "script": [["wait", "go"], ["shutdown_via_thread", 0], ["forever"]]},
+                                     "1": {"flavour": "trio", "script": [["beat", 3000, 0.01]], "cleanup": {"sync": 1, "shield": 0.2, "shield_steps": 2}},
+                                     "2": {"flavour": "asyncio", "script": [["beat", 3000, 0.01]], "cleanup": {"sync": 2}},
+                                     "3": {"flavour": "threading", "script": [["beat", 3000, 0.01]]}},
+                        "services": {}, "main": [["adopt", 0, 0], ["adopt", 0, 1], ["adopt", 0, 2], ["adopt", 0, 3], ["accept", 0]],
+                        "helpers": [[["wait_running", 0], ["sleep", 0.2], ["set", "go"]]],
+                        "timeout": 10, "linger": 0.4, "meta": {"family": "stop", "trigger": "coroutine_shutdown", "when": "mid"}})
     if pid == "C02":
         for fl in ("asyncio", "threading"):
             out.append({"runners": [{"accept_delay": 0.05}],
